@@ -43,7 +43,10 @@ def incremental(mode, strategy, d, n, m, grid=8):
 
 def batch(entry, d, n, m, grid=8):
     rows, ys, _, _ = instance(d, m)
-    if entry == "interval":
+    if entry == "interval_product":
+        sc = GB.BatchScenario(cls="interval", mode="interval", d=d, n_inner=n, tables="spec", interval=m, storage_len=m,
+                              imputer_kind="product", rows=[([F(v) for v in r], y) for r, y in zip(rows, ys)], calls=[(False, True)] * m)
+    elif entry == "interval":
         # IntervalSage whose m-th call recomputes over a window holding exactly the m rows
         sc = GB.BatchScenario(cls="interval", mode="interval", d=d, n_inner=n, tables="spec", interval=m, storage_len=m,
                               rows=[([F(v) for v in r], y) for r, y in zip(rows, ys)], calls=[(False, True)] * m)
